@@ -54,3 +54,10 @@ prop('C18', technique='contract-based deductive verification: device protocol co
      assumptions=['int(str)/float(str) acceptance and value are uninterpreted functions of the text (CPython, assumed)',
                   'lemma: sep.join(fields).split(sep) == fields for separator-free fields'],
      not_covered=['QBASIC vs Python numeral syntax (C16)', 'more than one rejected line (same loop body)', 'lvalue stores (C01/C04)'])
+prop('C10', technique='contract-based deductive verification of the error-state machine (tick, _trap, errhand, errres, errresn, errget, '
+                      'find_stmt) with symbolic addresses and statement ranges',
+     explanation='per-instruction contracts over (trap_target, error_handler_active, trapped_addr, last_trap, pc): trap dispatch, handler '
+                 'arming, RESUME / RESUME NEXT targets via the innermost statement record',
+     assumptions=['statement records of the debug section are those of C11'],
+     not_covered=['statement atomicity (operand-stack truncation on resume) is not implemented by the VM at all: see DESIGN known findings',
+                  'errors inside procedures while the handler lives at module level'])
